@@ -260,7 +260,7 @@ pub fn c06_eval_ops(run: &mut Run, ops: &[BitOp]) {
     // path 1: Ps2Decoder
     let r = guard(|| {
         let mut d = Ps2Decoder::new();
-        let mut m = BitModel::new();
+        let mut m = BitModel::relational();
         for (i, op) in ops.iter().enumerate() {
             match op {
                 BitOp::Clear => {
@@ -292,12 +292,12 @@ pub fn c06_eval_ops(run: &mut Run, ops: &[BitOp]) {
         }),
         Ok(None) => {}
     }
-    // path 2: Keyboard (Set 2); accepted bytes are cross-checked against a separately owned
-    // scancode decoder fed with the model's bytes
+    // path 2: Keyboard (Set 2). Only the framing is judged here: incomplete until the 11th bit,
+    // a rejected frame is rejected with add_word's error, an accepted frame is not reported as
+    // a framing error. What the accepted byte then decodes to is the business of C01/C18.
     let r = guard(|| {
         let mut k = Keyboard::new(ScancodeSet2::new(), Us104Key, HandleControl::Ignore);
-        let mut sc = ScancodeSet2::new();
-        let mut m = BitModel::new();
+        let mut m = BitModel::relational();
         for (i, op) in ops.iter().enumerate() {
             match op {
                 BitOp::Clear => {
@@ -306,13 +306,16 @@ pub fn c06_eval_ops(run: &mut Run, ops: &[BitOp]) {
                 }
                 BitOp::Bit(b) => {
                     let got = k.add_bit(*b);
-                    let want: Result<Option<KeyEvent>, Error> = match m.add_bit(*b) {
-                        Err(e) => Err(e),
-                        Ok(None) => Ok(None),
-                        Ok(Some(byte)) => sc.advance_state(byte),
+                    let (ok, want) = match m.add_bit(*b) {
+                        Err(e) => (got == Err(e.clone()), sc_out_str(&Err(e))),
+                        Ok(None) => (got == Ok(None), "None".to_string()),
+                        Ok(Some(byte)) => (
+                            !matches!(got, Err(Error::BadStartBit) | Err(Error::BadStopBit) | Err(Error::ParityError)),
+                            format!("byte {:02X} handed to the scancode stage (no framing error)", byte),
+                        ),
                     };
-                    if got != want {
-                        return Some((i, sc_out_str(&want), sc_out_str(&got)));
+                    if !ok {
+                        return Some((i, want, sc_out_str(&got)));
                     }
                 }
             }
@@ -327,7 +330,7 @@ pub fn c06_eval_ops(run: &mut Run, ops: &[BitOp]) {
         }),
         Ok(Some((i, want, got))) => run.violation(Violation {
             sig: format!("kbd:bits:{}:step={}:want={}:got={}", ops_compact(&ops[..=i]), i, want, got),
-            what: format!("Keyboard::add_bit: after the bit/clear sequence {} the next bit gives {}, framing + scancode decoding of the completed frames requires {}", ops_compact(&ops[..i]), got, want),
+            what: format!("Keyboard::add_bit: after the bit/clear sequence {} the next bit gives {}, whole-word decoding of the frame requires {}", ops_compact(&ops[..i]), got, want),
             case: json!({"kind":"bits","ops":ops_compact(&ops[..=i])}),
         }),
         Ok(None) => {}
@@ -429,7 +432,7 @@ pub fn long_unit_grammar() -> Vec<Vec<BitOp>> {
 }
 
 pub fn c06(run: &mut Run) {
-    run.rule = "Exhaustive: (a) every partial prefix of 0-10 bits (2047 shift-register states, each reached by feeding the prefix to a fresh decoder) x next bit: 'incomplete' until the 11th bit, then the whole-word model's verdict; (b) all 2048 x 2048 ordered frame pairs bit by bit on a fresh decoder: both results must equal whole-word decoding whatever the first frame was; (c) every partial state -> clear() -> every frame. State exploration: BFS over {bit 0, bit 1, clear()} with states named by Ps2Decoder's Debug rendering. Repeat-then-perturb: a frame repeated 1-6 times (typematic repeat), then optionally an abandoned partial frame + clear(), then the same frame / each single-bit corruption / another frame. Deep-history families: a frame held for 255/256/300 repeats, 1-16 rejected frames, the frame again, then each single-bit corruption; noisy-line workloads (6000 frames of typing traffic with 0-33% corrupted frames and 0-10% abandoned partial frames + clear(), with bad-start/bad-stop probes at every 1024-frame boundary). Pumping: frames and partial-frame+clear() patterns repeated for >= 80,000 bits. Random: chunked bit streams (valid frames, bursts of rejected frames, 1-2 flipped bits, random 11 bits, partial frame + clear(), clear() at a boundary, random runs) against the bit-serial model through Ps2Decoder and through Keyboard::add_bit/clear. Non-trivial = pair with exactly one of the two frames rejected; clear() with >= 1 pending bit followed by a frame; random stream containing a rejected frame followed by an accepted one or a clear() with pending bits. Exhaustive cases are distinct by construction, random ones by op-string fingerprint.".into();
+    run.rule = "Exhaustive: (a) every partial prefix of 0-10 bits (2047 shift-register states, each reached by feeding the prefix to a fresh decoder) x next bit: 'incomplete' until the 11th bit, then exactly what the crate's own Ps2Decoder::add_word returns for those 11 bits (relational oracle; whether add_word is right is C05); (b) all 2048 x 2048 ordered frame pairs bit by bit on a fresh decoder: both results must equal whole-word decoding whatever the first frame was; (c) every partial state -> clear() -> every frame. State exploration: BFS over {bit 0, bit 1, clear()} with states named by Ps2Decoder's Debug rendering. Repeat-then-perturb: a frame repeated 1-6 times (typematic repeat), then optionally an abandoned partial frame + clear(), then the same frame / each single-bit corruption / another frame. Deep-history families: a frame held for 255/256/300 repeats, 1-16 rejected frames, the frame again, then each single-bit corruption; noisy-line workloads (6000 frames of typing traffic with 0-33% corrupted frames and 0-10% abandoned partial frames + clear(), with bad-start/bad-stop probes at every 1024-frame boundary). Pumping: frames and partial-frame+clear() patterns repeated for >= 80,000 bits. Random: chunked bit streams (valid frames, bursts of rejected frames, 1-2 flipped bits, random 11 bits, partial frame + clear(), clear() at a boundary, random runs) against the bit-serial model (pending bits + add_word's verdict) through Ps2Decoder and through Keyboard::add_bit/clear (framing outcome only: incomplete / add_word's error / frame accepted). Non-trivial = pair with exactly one of the two frames rejected; clear() with >= 1 pending bit followed by a frame; random stream containing a rejected frame followed by an accepted one or a clear() with pending bits. Exhaustive cases are distinct by construction, random ones by op-string fingerprint.".into();
     run.assumptions = vec!["Ps2Decoder is deterministic; each case starts from Ps2Decoder::new()".into()];
 
     // (a) partial states x next bit
@@ -458,7 +461,7 @@ pub fn c06(run: &mut Run) {
     run.part("partial_states", json!({"states": states, "transitions": states * 2}));
 
     // (b) all ordered frame pairs, parallel over the first frame
-    let verdict: Vec<Result<Option<u8>, Error>> = (0..0x800u16).map(|w| frame::check_word(w).map(Some)).collect();
+    let verdict: Vec<Result<Option<u8>, Error>> = (0..0x800u16).map(|w| frame::real_verdict(w).map(Some)).collect();
     let fails: Vec<(u16, u16)> = (0..0x800u16)
         .into_par_iter()
         .flat_map_iter(|a| {
@@ -652,7 +655,7 @@ pub fn c06(run: &mut Run) {
         let fast = |ops: &[BitOp]| -> bool {
             guard(|| {
                 let mut d = Ps2Decoder::new();
-                let mut m = BitModel::new();
+                let mut m = BitModel::relational();
                 for o in ops {
                     match o {
                         BitOp::Clear => { d.clear(); m.clear(); }
@@ -780,7 +783,7 @@ pub fn c06(run: &mut Run) {
             st.0 += 1;
             st.1 += ops.len() as u64;
             // classify with the model
-            let mut m = BitModel::new();
+            let mut m = BitModel::relational();
             let (mut rej_then_acc, mut last_rej, mut clear_pending) = (false, false, false);
             for o in &ops {
                 match o {
